@@ -95,7 +95,7 @@ fn canon_of<T: Message>(v: &T) -> String {
     }
 }
 
-struct Recode<'a> { proto: Proto, input: &'a [u8], o: &'a mut Oracle, out: String }
+struct Recode<'a> { proto: Proto, input: &'a [u8], o: &'a mut Oracle, out: String, keep: bool }
 impl<'a> Action for Recode<'a> {
     fn run<T: Message + Debug + 'static>(&mut self, _d: Option<fn() -> T>) {
         let (r, rem) = decode_with::<T>(self.proto, self.input);
@@ -103,7 +103,9 @@ impl<'a> Action for Recode<'a> {
             Err(e) => err_class(&e).to_string(),
             Ok(v) => {
                 // size() == bytes written, under every protocol (C04 for emitted types)
-                for p in [Proto::Bin, Proto::Le, Proto::Cmp, Proto::UBin] {
+                // retained unknown fields are raw binary-protocol bytes: only the binary family applies with retention
+                let all: &[Proto] = if self.keep { &[Proto::Bin, Proto::UBin] } else { &[Proto::Bin, Proto::Le, Proto::Cmp, Proto::UBin] };
+                for &p in all {
                     match encode_with(p, &v) {
                         Ok((b, size)) => if b.len() != size { self.o.fail("C04", format!("emitted size() {} != {} bytes written under {}", size, b.len(), p.name())); },
                         Err(e) => self.o.fail("C02,C11", format!("emitted encode failed under {}: {}", p.name(), e)),
@@ -116,7 +118,7 @@ impl<'a> Action for Recode<'a> {
                         // a newtype / enum is not a struct on the wire: fall back to raw bytes
                         let shown = if r.err.is_none() && r.rem == 0 { Val::of_sexp(&Sexp::parse_line(&r.items[0]).unwrap()[0]).map(|v| canon(&v).sexp()).unwrap_or_default() } else { format!("raw:{}", hex(&b)) };
                         // the same value must round trip through the other protocols (C02)
-                        for p in [Proto::Le, Proto::Cmp, Proto::UBin] {
+                        for &p in all.iter().filter(|p| **p != Proto::Bin) {
                             if let Ok((b2, _)) = encode_with(p, &v) {
                                 let (r2, rem2) = decode_with::<T>(p, &b2);
                                 match r2 { Ok(v2) => { if rem2 != 0 || canon_of(&v2) != shown { self.o.fail("C02", format!("round trip under {} changed the value or left {} bytes", p.name(), rem2)); } }
@@ -144,16 +146,19 @@ impl Action for DefaultOf {
     }
 }
 
-struct Leak<'a> { proto: Proto, input: &'a [u8], out: String }
+struct Leak<'a> { proto: Proto, input: &'a [u8], out: String, leaks: Vec<usize>, accepted_prefix: Option<usize> }
 impl<'a> Action for Leak<'a> {
     fn run<T: Message + Debug + 'static>(&mut self, _d: Option<fn() -> T>) {
         // warm up once so that lazily initialised statics do not count
         { let _ = decode_with::<T>(self.proto, self.input); }
-        let before = LIVE.load(Ordering::Relaxed);
-        let failed;
-        { let (r, _) = decode_with::<T>(self.proto, self.input); failed = r.is_err(); drop(r); }
-        let after = LIVE.load(Ordering::Relaxed);
-        self.out = if failed { format!("err leaked={}", after - before) } else { format!("ok leaked={}", after - before) };
+        for cut in 0..self.input.len() {
+            let before = LIVE.load(Ordering::Relaxed);
+            let failed;
+            { let (r, _) = decode_with::<T>(self.proto, &self.input[..cut]); failed = r.is_err(); drop(r); }
+            let after = LIVE.load(Ordering::Relaxed);
+            if failed { if after != before { self.leaks.push(cut); } } else if self.accepted_prefix.is_none() { self.accepted_prefix = Some(cut); }
+        }
+        self.out = format!("ok n={} leaks={}", self.input.len(), if self.leaks.is_empty() { "-".to_string() } else { self.leaks.iter().map(|x| x.to_string()).collect::<Vec<_>>().join(",") });
     }
 }
 
@@ -217,7 +222,7 @@ fn exec(verb: &str, items: &[Sexp], o: &mut Oracle) -> Option<String> {
             let mut idx = 4;
             let mut chunks = vec![];
             if verb == "ga" { let Some(c) = a(4) else { return bad() }; chunks = if c == "-" { vec![] } else { c.split(',').filter_map(|x| x.parse().ok()).collect() }; idx = 5; }
-            let input: Vec<u8> = if verb == "gb" || verb == "gl" { let Some(h) = a(idx).and_then(unhex) else { return bad() }; h }
+            let input: Vec<u8> = if verb == "gb" { let Some(h) = a(idx).and_then(unhex) else { return bad() }; h }
             else {
                 let Some(v) = items.get(idx).and_then(Val::of_sexp) else { return bad() };
                 match write_all(proto, BufK::Bm, StrApi::Bytes, &[v]) { Ok(w) => w.bytes, Err(_) => return Some("err-input".into()) }
@@ -225,15 +230,17 @@ fn exec(verb: &str, items: &[Sexp], o: &mut Oracle) -> Option<String> {
             let expect = items.iter().position(|x| x.atom() == Some("=>")).and_then(|i| items.get(i + 1));
             let out;
             match verb {
-                "gl" => { let mut act = Leak { proto, input: &input, out: String::new() }; if !dispatch(doc, ty, &mut act) { return Some("unknown-type".into()); } out = act.out;
-                          if out.starts_with("err") && !out.ends_with("leaked=0") { o.fail("C19", format!("failed decode of {}::{} leaves heap bytes: {}", doc, ty, out)); } }
+                "gl" => { let mut act = Leak { proto, input: &input, out: String::new(), leaks: vec![], accepted_prefix: None }; if !dispatch(doc, ty, &mut act) { return Some("unknown-type".into()); } out = act.out;
+                          if !act.leaks.is_empty() { o.fail("C19", format!("failed decode of {}::{} under {} leaves heap memory or buffer references behind when the input is cut at {:?}", doc, ty, proto.name(), act.leaks)); }
+                          if let Some(c) = act.accepted_prefix { o.fail("C09", format!("strict prefix of length {} of a valid {}::{} encoding is accepted under {}", c, doc, ty, proto.name())); } }
                 "ga" => { let mut act = AsyncDec { proto, input: &input, chunks, o, out: String::new() }; if !dispatch(doc, ty, &mut act) { return Some("unknown-type".into()); } out = act.out; }
-                _ => { let mut act = Recode { proto, input: &input, o, out: String::new() }; if !dispatch(doc, ty, &mut act) { return Some("unknown-type".into()); } out = act.out; }
+                _ => { let mut act = Recode { proto, input: &input, o, out: String::new(), keep: doc.ends_with('k') }; if !dispatch(doc, ty, &mut act) { return Some("unknown-type".into()); } out = act.out; }
             }
             if let Some(e) = expect {
                 let want = match e { Sexp::Atom(s) => s.clone(), l => { let mut s = String::new(); fn p(x: &Sexp, s: &mut String) { match x { Sexp::Atom(a) => s.push_str(a), Sexp::List(l) => { s.push('('); for (i, y) in l.iter().enumerate() { if i > 0 { s.push(' '); } p(y, s); } s.push(')'); } } } p(l, &mut s); s } };
                 let got = if out.starts_with("ok ") { out[3..].rsplit_once(' ').map(|x| x.0.to_string()).unwrap_or_default() } else { out.clone() };
-                if got != want { o.fail(items.iter().rev().next().and_then(|x| x.atom()).filter(|t| t.starts_with('C')).unwrap_or("C02"), format!("emitted {}::{} under {}: got {} want {}", doc, ty, proto.name(), got, want)); }
+                let same = got == want || (want == "err" && (got == "err" || got == "depth"));
+                if !same { o.fail(items.iter().rev().next().and_then(|x| x.atom()).filter(|t| t.starts_with('C')).unwrap_or("C02"), format!("emitted {}::{} under {}: got {} want {}", doc, ty, proto.name(), got, want)); }
             }
             Some(out)
         }
